@@ -25,10 +25,11 @@ CLAIMED = {
  "C16": claim("Object built with arbitrary prices, SetNewGasConfig(g) with 22 independent symbolic entries, then one funded call: consumed gas equals that function's own formula.", "DESIGN.md §5 C16"),
  "C17": claim("Every stub call takes a fresh symbolic fault bit: any consumed fault implies (nil, error).", "DESIGN.md §5 C17"),
  "C18": claim("EpochConfirmed from an arbitrary reachable flag state with symbolic 32-bit epoch/activation; the production factory executed (reflect subset + modelled mapstructure.Decode): exactly 23 names, each bound by behaviour.", "DESIGN.md §5 C18"),
+ "C19": claim("Step 1: lock/atomic discipline monitor on every sequential path of MutexMap, the atomics and all 15 mutex-guarded priced functions (price fields read under >= R, written under W in one section; atomic cells only through sync/atomic; map only under its lock) - a lockset argument for data-race freedom. Step 2: a cooperative scheduler explores every interleaving of 2 goroutines x 1 operation at synchronisation-operation granularity: MutexMap and the function container are compared with both sequential orders, counters lose no update, a call concurrent with SetNewGasConfig is charged wholly by one schedule.", "DESIGN.md §5 C19, §14.5"),
  "C20": claim("Every helper law is an SMT query over symbolic inputs executed through the real go/ssa of codeMetadata.go, address.go, gasCost.go, output.go and esdtMetaData.go.", "DESIGN.md §5 C20"),
 }
 
-NOT_YET = {"C19": "in progress: lock-discipline monitor and 2-goroutine scheduler of DESIGN.md §5 C19 not built yet; not claimed until they run clean"}
+NOT_YET = {}
 
 ALL = ["C%02d" % i for i in range(1, 21)]
 
